@@ -497,7 +497,9 @@ def exhaustive_cases(tier, seed):
                    "steps": [{"op": "set", "key": K, "vspec": ("int", start), "noreply": False}, {"op": "get", "key": K}, {"op": "decr", "key": K, "delta": delta},
                              {"op": "get", "key": K}, {"op": "gets", "key": K}, {"op": "incr", "key": K, "delta": delta}, {"op": "get_many", "keys": [K, "k1"]}]}
         for fl, vals in ((0, [("str", "txt"), ("int", 42), ("bytes", b"raw"), ("list", [("int", 1)])]), (None, [("str", "txt"), ("int", 42), ("bytes", b"raw"), ("list", [("int", 1)])]),
-                         (16, [("str", "txt"), ("bytes", b"raw")]), (2, [("int", 42), ("bytes", b"42")])):
+                         (16, [("str", "txt"), ("bytes", b"raw")]), (2, [("int", 42), ("bytes", b"42")]),
+                         # (4 is python-memcached's flag for a Python 2 `long`, 6 both number bits: such items read as numbers)
+                         (4, [("int", 42), ("bytes", b"42"), ("int", 2 ** 70)]), (6, [("int", 7)])):
             for v in vals:
                 steps = [{"op": "set", "key": K, "vspec": v, "noreply": False}, {"op": "add", "key": "k1", "vspec": v, "noreply": False}, {"op": "set_many", "values": {}, "noreply": False},
                          {"op": "get", "key": K}, {"op": "get_many", "keys": [K, "k1"]}, {"op": "replace", "key": K, "vspec": v, "noreply": True}, {"op": "gets", "key": K}]
